@@ -134,8 +134,10 @@ GS('dc.dt_conv_to_ymd', 'date-core', 'dt_conv_to_ymd', DATE, TSPLIT, call='dt_co
 GS('dc.dt_conv_to_ymcw', 'date-core', 'dt_conv_to_ymcw', DATE, TSPLIT, call='dt_conv_to_ymcw(d)', ret='dt_ymcw_t', replace=sorted(set(leaves('ymcw'))) + UNR('__bizda_to_ymcw', '__ummulqura_to_ldn', '__jdn_to_daisy'), solvers=SV, **D_IN)
 GS('dc.dt_conv_to_ywd', 'date-core', 'dt_conv_to_ywd', DATE, TSPLIT, call='dt_conv_to_ywd(d)', ret='dt_ywd_t', replace=sorted(set(leaves('ywd'))) + UNR('__bizda_to_ywd', '__ummulqura_to_ldn', '__jdn_to_daisy'), solvers=SV, **D_IN)
 GS('dc.dt_conv_to_yd', 'date-core', 'dt_conv_to_yd', DATE, TSPLIT, call='dt_conv_to_yd(d)', ret='dt_yd_t', replace=sorted(set(leaves('yd'))) + UNR('__ummulqura_to_ldn', '__jdn_to_daisy'), solvers=SV, **D_IN)
-G('dc.dt_dfixup.valid', 'date-core', 'dt_dfixup', DATE, call='dt_dfixup(d)', ret='struct dt_d_s',
-  replace=['__get_mdays', '__get_mcnt', '__get_isowk', '__get_ydays'] + UNR('__bizda_fixup', '__ummulqura_fixup'), solvers=SV, **D_IN)
+for t in ('DT_YMD', 'DT_YMCW', 'DT_YWD', 'DT_YD', 'DT_DAISY', 'DT_LDN', 'DT_MDN'):
+    G('dc.dt_dfixup.' + t[3:], 'date-core', 'dt_dfixup', ['C01', 'C04'], ins=[(U, 'in_typ'), ('uint32_t', 'in_u')], fix={'in_typ': t},
+      setup='struct dt_d_s d = {DT_DUNK}; d.typ = (dt_dtyp_t)in_typ; d.u = in_u;', call='dt_dfixup(d)', ret='struct dt_d_s',
+      replace=['__ymd_fixup', '__ymcw_fixup', '__ywd_fixup', '__yd_fixup'] + UNR('__bizda_fixup', '__ummulqura_fixup'), solvers=SV, sweep={'in_u': 'RND'})
 TYPS = ('DT_YMD', 'DT_YMCW', 'DT_YWD', 'DT_YD', 'DT_DAISY', 'DT_LDN', 'DT_MDN')
 QUICK_PAIRS = {('DT_YWD', 'DT_YMD'), ('DT_YMD', 'DT_YWD'), ('DT_DAISY', 'DT_YMCW'), ('DT_YMCW', 'DT_DAISY'), ('DT_YMD', 'DT_YD'), ('DT_YD', 'DT_LDN'), ('DT_MDN', 'DT_YMD')}
 for t in TYPS:
